@@ -36,6 +36,7 @@ func (c17) Gen(r *rand.Rand, tier string, run int) *core.Case {
 	if c.Params["peer_lazy"] > 0 {
 		c.Net.Capacity = []int{16, 64}[r.IntN(2)]
 	}
+	c.Params["prefill"] = []int{0, 0, 0, 7, 9, 10, 11}[r.IntN(7)]
 	actors := 2 + r.IntN(4)
 	shutdown := r.IntN(4) // 0: nobody shuts down inside the race (main closes at the end)
 	for a := 0; a < actors; a++ {
@@ -146,6 +147,11 @@ func (c17) Run(c *core.Case, env *core.Env) {
 			actors = append(actors, op.Actor)
 		}
 		by[op.Actor] = append(by[op.Actor], op)
+	}
+	// handlers registered before the race, so that the registrations of the
+	// race meet a table that is nearly full, full, or already grown
+	for i := 0; i < c.P("prefill", 0); i++ {
+		c17make(env, st, 98, 2, 0)
 	}
 	var wg sync.WaitGroup
 	for _, a := range actors {
